@@ -27,6 +27,9 @@ type c25Op struct {
 	Kind string `json:"kind"` // write setsize create (UNCHECKED CREATE of the existing file with an explicit size)
 	End  int    `json:"end"`  // selector of the resulting end offset / size relative to M
 	Len  int    `json:"len"`
+	// Guard (setsize): the SETATTR carries a sattrguard3 with the object's current ctime (fetched by GETATTR just before);
+	// a guard that matches does not lift the limit
+	Guard bool `json:"guard,omitempty"`
 }
 
 type c25Case struct {
@@ -45,7 +48,7 @@ func genC25(t *rapid.T) c25Case {
 	}
 	n := rapid.IntRange(2, 14).Draw(t, "n")
 	for i := 0; i < n; i++ {
-		c.Ops = append(c.Ops, c25Op{Kind: pick(t, "kind", "write", "write", "write", "setsize", "setsize", "create"), End: rapid.IntRange(0, 10).Draw(t, "end"), Len: pick(t, "len", 0, 1, 2, 3, 100, 5000)})
+		c.Ops = append(c.Ops, c25Op{Kind: pick(t, "kind", "write", "write", "write", "setsize", "setsize", "create"), End: rapid.IntRange(0, 10).Draw(t, "end"), Len: pick(t, "len", 0, 1, 2, 3, 100, 5000), Guard: rapid.IntRange(0, 2).Draw(t, "guard") == 0})
 	}
 	return c
 }
@@ -162,11 +165,22 @@ func runC25(tb stat.TB, c c25Case) {
 				}
 				// (CREATE is not named by the statement: only the size invariant and the twin comparison are judged)
 			case "setsize":
-				what = fmt.Sprintf("op#%d SETATTR size=%d (limit %d)", i, end, c.M)
-				lres = lim.nfs(nfsx.ProcSetattr, nfsx.ArgsSetattr(lfh, nfsx.Sattr{Size: nfsx.U64p(end)}, nil))
+				what = fmt.Sprintf("op#%d SETATTR size=%d (limit %d, matching sattrguard3: %v)", i, end, c.M, op.Guard)
+				var lg, tg *nfsx.Time
+				if op.Guard {
+					if ga := lim.nfs(nfsx.ProcGetattr, nfsx.ArgsFh(lfh)); ga.Status == nfsx.OK && ga.Attr != nil {
+						g := ga.Attr.Ctime
+						lg = &g
+					}
+					if ga := twin.nfs(nfsx.ProcGetattr, nfsx.ArgsFh(tfh)); ga.Status == nfsx.OK && ga.Attr != nil {
+						g := ga.Attr.Ctime
+						tg = &g
+					}
+				}
+				lres = lim.nfs(nfsx.ProcSetattr, nfsx.ArgsSetattr(lfh, nfsx.Sattr{Size: nfsx.U64p(end)}, lg))
 				exceeds := int64(end) > c.M
 				if !exceeds {
-					tres = twin.nfs(nfsx.ProcSetattr, nfsx.ArgsSetattr(tfh, nfsx.Sattr{Size: nfsx.U64p(end)}, nil))
+					tres = twin.nfs(nfsx.ProcSetattr, nfsx.ArgsSetattr(tfh, nfsx.Sattr{Size: nfsx.U64p(end)}, tg))
 				}
 				if int64(end) >= c.M-1 && int64(end) <= c.M+1 {
 					nt = true
